@@ -59,8 +59,9 @@ T = {
     'C09': ('fault_enumeration', 'E-fault',
             'exhaustive crash-point and torn-write-prefix enumeration over the recorded effect trace of the '
             'real experiment loop, iterated to a fixpoint of reachable directory states',
-            'crash before every effect and after every byte prefix of every checkpoint write, from every '
-            'reachable on-disk state (any number of successive crashes), for all small configurations',
+            'crash (process death, or KeyboardInterrupt / SystemExit unwinding through the library) before every effect and after '
+            'every byte prefix of every checkpoint write, from every reachable on-disk state (any number of successive crashes), '
+            'for all small configurations',
             'crash = process death with prefix-persisting files; no metadata reordering', '3/C09'),
     'C10': ('model_checking', 'E-graph',
             'explicit-state BFS over cohort histories on the real algorithms; value snapshots, repeat calls, '
@@ -102,7 +103,7 @@ T = {
             'the Sylvester matrix; shapes x keys for the rotation',
             'all power-of-two lengths to 2^14 and all valid block sizes', 'float32 rounding', '3/C18'),
     'C19': ('fault_enumeration', 'E-fault',
-            'exhaustive crash / I/O-error injection at every effect (every block) of download and '
+            'exhaustive crash / I/O-error / KeyboardInterrupt injection at every effect (every block) of download and '
             'decompression, iterated to a fixpoint of cache-directory states',
             'every fault point for all payload-size classes, any number of successive faults',
             'fake transport; crash = prefix-persisting files', '3/C19'),
